@@ -218,7 +218,7 @@ class C03(Prop):
     CASE_HEADER = ("From Boreal Require Import Base.Prelude Spec.Regex Model.Hir Model.Widen Model.Validator "
                    "Model.Raw Model.HirScan Model.HexCase.")
     HARNESS_BINS = ("c03",)
-    KF = {1: "C03-start-position", 2: "C03-fullword-single-length", 3: "C03-alt-glue", 4: "C03-wide-boundary-rev-context"}
+    KF = {1: "C03-start-position", 2: "C03-fullword-single-length", 3: "C03-alt-glue", 4: "C03-wide-boundary-rev-context", 5: "C03-length-by-arrival"}
     RULE = ("regex ASTs of the property's dialect (literals incl. NUL, newline and escaped metacharacters, perl and "
             "bracketed classes incl. negated and ranges, dot, groups, alternation, ? * + {n} {n,} {n,m} {,m} greedy and "
             "lazy, ^ $ \\b \\B, rare non-ASCII characters), depth <= 3, non-nullable, printed to YARA syntax with every "
